@@ -1,5 +1,20 @@
 /-
-  Props/C05.lean — property theorems for C05 (children / parent / parents).
+  Props/C05.lean — property theorems for C05: `children()`, `parent()` and `parents()` describe
+  the real process tree. Only statements the property makes; helper lemmas live in
+  Proofs/C05*.lean.
+
+  `cfg`/`scfg` are built from Generated/C05.lean, which the translator rewrites from /repo's
+  source on every run. `cfg_good`/`scfg_good` are the proof obligations that break when one of
+  the three create-time tests stops being `<=`, the `seen` guard of the recursive walk goes
+  away, `children()` hands out the caller itself again, `parents()` loses its cycle stop, an
+  identity pre-check or the lowest-PID stop is dropped, or a stat reader uses `find`/another
+  index.
+
+  Conventions: `pm` is what `ppid_map()` returned (ANY list of pairs — forests, self-loops,
+  cycles, unlisted parents), `look0` the world when the caller's identity is checked, `look`
+  the world in which each child PID is examined afterwards (`look ≠ look0` = processes
+  vanishing or PIDs being recycled while the tree is walked); start times are arbitrary
+  naturals (every ordering, ties included).
 -/
 import PsutilModel.Proofs.C05
 import PsutilModel.Model.C05Gen
@@ -8,5 +23,97 @@ open Spec
 
 theorem cfg_good : cfg.Good := by
   constructor <;> decide
+
+/-! ## children() -/
+
+/-- **C05_terminates.** On ANY ppid map — cyclic, self-looping, with duplicate keys — and any
+    world, `children()` finishes: the walk never runs out of the fuel `walkFuel pm`
+    (≤ (n+1)² + 2 iterations for n listed PIDs). -/
+theorem C05_terminates (me : Caller) (recursive : Bool) (look0 : Look) (pm : PpidMap) (look : Look) :
+    (children cfg me recursive look0 pm look).2 ≠ .diverged := by
+  cases hraise : (raiseIfPidReused look0 me).2 with
+  | true =>
+    simp [children, cfg_good.childrenGuarded, hraise]
+  | false =>
+    cases recursive with
+    | false => rw [children_flat_good cfg cfg_good me look0 pm look hraise]; simp
+    | true =>
+      obtain ⟨s, hs, _⟩ := children_rec_good cfg cfg_good me look0 pm look hraise
+      rw [hs]; simp
+
+/-- **C05_children_exact.** `children()` returns exactly the listed processes whose parent link
+    is the caller, that still exist and did not start before it — each once, never the caller. -/
+theorem C05_children_exact (me : Caller) (look0 : Look) (pm : PpidMap) (look : Look)
+    (hu : UniquePids pm) (hr : me.reused = false) (hn : ¬ Recycled look0 me) :
+    ∃ l, (children cfg me false look0 pm look).2 = .ok l
+      ∧ IsSetOf l (fun c => Child pm look me.ctime me.pid c ∧ c ≠ me.pid) := by
+  refine ⟨_, children_flat_good cfg cfg_good me look0 pm look (raise_false hr hn), ?_, ?_⟩
+  · exact kids_nodup (uniquePids_filter hu _) _ _
+  · intro c
+    rw [mem_kids_iff, child_goodMap_iff]
+
+/-- **C05_children_rec_exact.** `children(recursive=True)` returns exactly the descendants of the
+    caller — the inductive closure `Desc` of the child relation — each once, minus the caller. -/
+theorem C05_children_rec_exact (me : Caller) (look0 : Look) (pm : PpidMap) (look : Look)
+    (hu : UniquePids pm) (hr : me.reused = false) (hn : ¬ Recycled look0 me) :
+    ∃ l, (children cfg me true look0 pm look).2 = .ok l
+      ∧ IsSetOf l (fun c => Desc pm look me.ctime me.pid c ∧ c ≠ me.pid) := by
+  obtain ⟨s, hs, hnd, hmem⟩ := children_rec_good cfg cfg_good me look0 pm look (raise_false hr hn)
+  exact ⟨_, hs, flatMap_kids_isSetOf hu hnd hmem⟩
+
+/-- **C05_nodup.** No PID is returned twice, in either mode. -/
+theorem C05_nodup (me : Caller) (recursive : Bool) (look0 : Look) (pm : PpidMap) (look : Look)
+    (hu : UniquePids pm) (l : List Nat) (h : (children cfg me recursive look0 pm look).2 = .ok l) :
+    l.Nodup := by
+  cases hraise : (raiseIfPidReused look0 me).2 with
+  | true => simp [children, cfg_good.childrenGuarded, hraise] at h
+  | false =>
+    cases recursive with
+    | false =>
+      rw [children_flat_good cfg cfg_good me look0 pm look hraise] at h
+      cases h
+      exact kids_nodup (uniquePids_filter hu _) _ _
+    | true =>
+      obtain ⟨s, hs, hnd, hmem⟩ := children_rec_good cfg cfg_good me look0 pm look hraise
+      rw [hs] at h
+      cases h
+      exact (flatMap_kids_isSetOf hu hnd hmem).1
+
+/-- every returned PID was accepted as a child of somebody in the map without the caller's entry -/
+theorem children_mem (me : Caller) (recursive : Bool) (look0 : Look) (pm : PpidMap) (look : Look)
+    (l : List Nat) (h : (children cfg me recursive look0 pm look).2 = .ok l) :
+    ∀ c ∈ l, ∃ p, Child pm look me.ctime p c ∧ c ≠ me.pid := by
+  intro c hc
+  cases hraise : (raiseIfPidReused look0 me).2 with
+  | true => simp [children, cfg_good.childrenGuarded, hraise] at h
+  | false =>
+    cases recursive with
+    | false =>
+      rw [children_flat_good cfg cfg_good me look0 pm look hraise] at h
+      cases h
+      exact ⟨me.pid, child_goodMap_iff.1 (mem_kids_iff.1 hc)⟩
+    | true =>
+      obtain ⟨s, hs, _, _⟩ := children_rec_good cfg cfg_good me look0 pm look hraise
+      rw [hs] at h
+      cases h
+      obtain ⟨p, _, hk⟩ := List.mem_flatMap.1 hc
+      exact ⟨p, child_goodMap_iff.1 (mem_kids_iff.1 hk)⟩
+
+/-- **C05_not_self.** The caller is never among its own children or descendants — for ANY map
+    (self-loops, cycles through the caller, even duplicate entries). -/
+theorem C05_not_self (me : Caller) (recursive : Bool) (look0 : Look) (pm : PpidMap) (look : Look)
+    (l : List Nat) (h : (children cfg me recursive look0 pm look).2 = .ok l) : me.pid ∉ l := by
+  intro hm
+  obtain ⟨_, _, hne⟩ := children_mem me recursive look0 pm look l h _ hm
+  exact hne rfl
+
+/-- **C05_no_older.** Every returned process exists when examined and did not start before the
+    caller (a recycled PID is never handed out) — for ANY map and world. -/
+theorem C05_no_older (me : Caller) (recursive : Bool) (look0 : Look) (pm : PpidMap) (look : Look)
+    (l : List Nat) (h : (children cfg me recursive look0 pm look).2 = .ok l) :
+    ∀ c ∈ l, ∃ s, look c = some s ∧ me.ctime ≤ s := by
+  intro c hc
+  obtain ⟨_, hch, _⟩ := children_mem me recursive look0 pm look l h c hc
+  exact hch.2
 
 end Psutil.C05
